@@ -68,11 +68,11 @@ CLAIMED = {
     "C09": ("theorems: every child-ticking decorator ticks its child exactly once before deciding (tick shape with trace), "
             "the documented status table for all stateless decorators / Count / StatusToBlackboard, publication on the "
             "blackboard incl. nested names, Count counters per tick and on interrupt, no RUNNING node below a decorator "
-            "that finished + TRANSLATOR tie: the update() of the 7 status-map decorators, PassThrough, Condition and Count.update/terminate/setup are re-translated from the working tree to Lean on every run (harness/py2lean.py -> lean/PyTreesGen/C09.lean) and proved equal to the model's definitions for all arguments (C09_gen_* in Props/C09g.lean)", P, BT),
+            "that finished + TRANSLATOR tie: the update() of the 7 status-map decorators, PassThrough, Condition, StatusToBlackboard and Count.update/terminate/setup are re-translated from the working tree to Lean on every run (harness/py2lean.py -> lean/PyTreesGen/C09.lean) and proved equal to the model's definitions for all arguments (C09_gen_* in Props/C09g.lean)", P, BT),
     "C10": ("theorems: Retry/Repeat update, reset on entry and round lemmas (j-th failure/success), Repeat -1 never "
             "succeeds, Condition, Timeout init/update/cancel through the tick, EternalGuard false/true with exact trace, "
             "OneShot latched tick, latch set exactly by a covered completion, never cleared, unaffected by interruption, "
-            "kept over every history + TRANSLATOR tie: Retry/Repeat update() and initialise() are re-translated from the working tree to Lean on every run (harness/py2lean.py -> lean/PyTreesGen/C10.lean) and proved equal to the model's definitions for all arguments (C10_gen_* in Props/C10g.lean)", P, BT + "Time is an integer; float rounding of monotonic()+duration is outside the model."),
+            "kept over every history + TRANSLATOR tie: Retry/Repeat/Timeout update() and initialise(), EternalGuard.update, OneShot.update/terminate (the latch) and the members of common.OneShotPolicy are re-translated from the working tree to Lean on every run (harness/py2lean.py -> lean/PyTreesGen/C10.lean) and proved equal to the model's definitions for all arguments (C10_gen_* in Props/C10g.lean)", P, BT + "Time is an integer; float rounding of monotonic()+duration is outside the model."),
     "C11": ("theorems over a pointer heap: which calls are rejected, rejected calls leave the heap unchanged, the "
             "consistency invariant (child lists / parent links agree, no duplicates, one parent, remembered child is a "
             "child) is preserved by add / insert / remove / replace / remove-all / decorator construction, removed "
@@ -105,7 +105,7 @@ CLAIMED = {
     "C17": ("theorems on every stock leaf update for every blackboard content (exists/wait, value/wait-value with the "
             "operator table, multi-value check with evalChecks/publish, set/unset, BlackboardToStatus round trip) and round "
             "lemmas for TickCounter, StatusQueue (replay / eventually / cycle), SuccessEveryN (n | k), Timer; initialise "
-            "runs exactly when the leaf was not RUNNING + TRANSLATOR tie: SuccessEveryN.update, TickCounter.update/initialise are re-translated from the working tree to Lean on every run (harness/py2lean.py -> lean/PyTreesGen/C17.lean) and proved equal to the model's definitions for all arguments (C17_gen_* in Props/C17g.lean)", P, BT + "Integer clock."),
+            "runs exactly when the leaf was not RUNNING + TRANSLATOR tie: SuccessEveryN.update, TickCounter.update/initialise, Timer.update/initialise and the name -> (key, attribute path) helpers Blackboard.key / key_with_attributes are re-translated from the working tree to Lean on every run (harness/py2lean.py -> lean/PyTreesGen/C17.lean) and proved equal to the model's definitions for all arguments (C17_gen_* in Props/C17g.lean)", P, BT + "Integer clock."),
     "C18": ("theorems: XOR fold = parity (two options exact, even number fails, three-true counterexample K3), either_or / "
             "pick-up / oneshot shapes, flag publication and guards, memory keeps the choice, one-shot latch over every "
             "history; pick_up_where_you_left_off as a WHOLE, any number of tasks, any task subtrees that do not touch the "
